@@ -782,4 +782,76 @@ func (SmallInt).RightBitshiftSmallInt
   // i >> MinSmallInt would be i * 2^(2^63): not representable, excluded
   ensures val: other > MinSmallInt ==> isInt(ret) && intval(ret) == shl(i, -other)
   ensures canon: canon(ret)
+
+// ==== C24: lists and tuples behave as sequences ===================================
+// The abstract view of a list is the Go slice itself: len(*l) and elem(*l, k).
+spec fn inRange(index int, length int) bool = -length <= index && index < length
+spec fn normIdx(index int, length int) int = ite(index < 0, length + index, index)
+
+func NewIndexOutOfRangeError
+  trusted
+  assigns fresh
+  ensures ret != nil && fresh(ret) && ret.class == IndexErrorClass
+
+func NewCoerceError
+  trusted
+  assigns fresh
+  ensures ret != nil && fresh(ret)
+
+func NormalizeArrayIndex
+  props C24 C20
+  requires length >= 0
+  assigns nothing
+  ensures ok: inRange(index, length) ==> ret1 == Undefined && ret0 == normIdx(index, length)
+  ensures bounds: ret1 == Undefined ==> 0 <= ret0 && ret0 < length
+  ensures err: !inRange(index, length) ==> isErr(ret1, IndexErrorClass)
+
+func (*ArrayListOfValue).Get
+  props C24
+  requires l != nil
+  assigns nothing
+  ensures ok: inRange(index, len(*l)) ==> ret1 == Undefined && ret0 == elem(*l, normIdx(index, len(*l)))
+  ensures err: !inRange(index, len(*l)) ==> ret0 == Undefined && isErr(ret1, IndexErrorClass)
+
+func (*ArrayListOfValue).Set
+  props C24
+  requires l != nil
+  ensures hdr: *l == old(*l)
+  ensures ok: inRange(index, len(*l)) ==> ret == Undefined && elem(*l, normIdx(index, len(*l))) == val
+  ensures others: forall k int :: 0 <= k && k < len(*l) && !(inRange(index, len(*l)) && k == normIdx(index, len(*l))) ==> elem(*l, k) == old(elem(*l, k))
+  ensures err: !inRange(index, len(*l)) ==> isErr(ret, IndexErrorClass)
+
+func (*ArrayListOfValue).RemoveAt
+  props C24
+  requires l != nil && 0 <= i && i < len(*l)
+  ensures len: len(*l) == old(len(*l)) - 1
+  ensures before: forall k int :: 0 <= k && k < i ==> elem(*l, k) == old(elem(*l, k))
+  ensures after: forall k int :: i <= k && k < len(*l) ==> elem(*l, k) == old(elem(*l, k + 1))
+
+func (*ArrayListOfValue).RemoveAtErr
+  props C24
+  requires l != nil
+  ensures ok: inRange(index, old(len(*l))) ==> ret == Undefined && len(*l) == old(len(*l)) - 1
+  ensures before: inRange(index, old(len(*l))) ==> forall k int :: 0 <= k && k < normIdx(index, old(len(*l))) ==> elem(*l, k) == old(elem(*l, k))
+  ensures after: inRange(index, old(len(*l))) ==> forall k int :: normIdx(index, old(len(*l))) <= k && k < len(*l) ==> elem(*l, k) == old(elem(*l, k + 1))
+  ensures err: !inRange(index, old(len(*l))) ==> isErr(ret, IndexErrorClass) && *l == old(*l)
+
+func (*ArrayListOfValue).Append
+  props C24
+  requires l != nil
+  ensures len: len(*l) == old(len(*l)) + len(elements)
+  ensures prefix: forall k int :: 0 <= k && k < old(len(*l)) ==> elem(*l, k) == old(elem(*l, k))
+  ensures suffix: forall k int :: 0 <= k && k < len(elements) ==> elem(*l, old(len(*l)) + k) == old(elem(elements, k))
+
+func (*ArrayListOfValue).Grow
+  props C24
+  // (a request beyond the address space is an allocation failure, outside the property)
+  requires l != nil && newSlots >= 0 && newSlots <= 72057594037927936
+  ensures len: len(*l) == old(len(*l)) && cap(*l) == old(cap(*l)) + newSlots
+  ensures same: forall k int :: 0 <= k && k < len(*l) ==> elem(*l, k) == old(elem(*l, k))
+
+func (*ArrayListOfValue).SetAtVal
+  props C24 C01
+  requires l != nil && 0 <= index && index < len(*l)
+  ensures elem(*l, index) == val
 @*/
